@@ -78,9 +78,9 @@ def x86_operands():
     v = []
     for r in ("rax", "eax", "ax", "al", "ah", "rsp", "rbp", "sil", "r8", "r10d", "r11w", "r15b", "xmm0", "xmm15", "ymm1", "ymm31", "zmm9", "zmm31"):
         v.append(("%" + r, ("reg", None, r, None, None, None, None)))
-    for txt, val in (("$1", 1), ("$0", 0), ("$-1", -1), ("$10", 10), ("$0x10", 16), ("$-0x10", -16), ("$0xffffffffffffffff", 2 ** 64 - 1), ("$2147483648", 2 ** 31), ("$0xFF", 255)):
+    for txt, val in (("$1", 1), ("$0", 0), ("$-1", -1), ("$10", 10), ("$0x10", 16), ("$-0x10", -16), ("$0xffffffffffffffff", 2 ** 64 - 1), ("$2147483648", 2 ** 31), ("$0xFF", 255), ("$0xaB", 171)):
         v.append((txt, ("imm", val)))
-    disp = (("", None), ("8", 8), ("-8", -8), ("0x10", 16), ("-0x20", -32), ("0", 0))
+    disp = (("", None), ("8", 8), ("-8", -8), ("0x10", 16), ("-0x20", -32), ("0", 0), ("0x0", 0), ("0xA8", 168))
     for dt, dv in disp:
         for b in (None, "rax"):
             for i in (None, "rcx"):
@@ -131,7 +131,8 @@ def a64_registers():
 
 def a64_immediates():
     v = []
-    for txt, val in (("#1", 1), ("1", 1), ("#0", 0), ("#-1", -1), ("#16", 16), ("#0x10", 16), ("0xff", 255), ("#4095", 4095), ("#-256", -256)):
+    for txt, val in (("#1", 1), ("1", 1), ("#0", 0), ("#-1", -1), ("#16", 16), ("#0x10", 16), ("0xff", 255), ("#4095", 4095), ("#-256", -256),
+                     ("#0xFF", 255), ("#0x1C", 28), ("#-0xAB", -171)):
         v.append((txt, ("imm", val)))
     for txt in ("#1.5", "#0.5", "#2.0e+1", "1.0"):
         v.append((txt, ("fimm", "float")))
@@ -147,10 +148,10 @@ def a64_memory():
     v = []
     for bt, b in (("x1", ("x", "1")), ("sp", ("x", "sp")), ("x29", ("x", "29"))):
         v.append(("[%s]" % bt, ("mem", b, None, None, 1, False, None)))
-        for ot, ov in (("#8", 8), ("8", 8), ("#-16", -16), ("#0x20", 32), ("#0", 0)):
+        for ot, ov in (("#8", 8), ("8", 8), ("#-16", -16), ("#0x20", 32), ("#0", 0), ("#0x1A8", 424)):
             v.append(("[%s, %s]" % (bt, ot), ("mem", b, ov, None, 1, False, None)))
             v.append(("[%s, %s]!" % (bt, ot), ("mem", b, ov, None, 1, True, None)))
-        for pt, pv in (("#8", 8), ("#-32", -32), ("#0x40", 64)):
+        for pt, pv in (("#8", 8), ("#-32", -32), ("#0x40", 64), ("#0x1C", 28)):
             v.append(("[%s], %s" % (bt, pt), ("mem", b, None, None, 1, False, pv)))
         v.append(("[%s, x2]" % bt, ("mem", b, None, ("x", "2"), 1, False, None)))
         for n in (0, 1, 2, 3, 4):
